@@ -19,12 +19,15 @@ import (
 	"net/http"
 	"net/url"
 	"os"
+	"os/exec"
+	"os/signal"
 	"path"
 	"path/filepath"
 	"runtime"
 	"sort"
 	"strings"
 	"sync"
+	"syscall"
 
 	webdav "github.com/emersion/go-webdav"
 
@@ -1205,11 +1208,142 @@ func stageRacePut(sink *hx.Sink) {
 	os.RemoveAll(filepath.Dir(sb.Dir))
 }
 
+// ---- wfault: the file system refuses to grow a file (RLIMIT_FSIZE) while the server writes
+// an upload or a copy (C17: no host path in the answer; C02: a failed request changes nothing).
+// The limit is per process, so the stage runs in a child of this binary whose case lines
+// come back through a pipe (pipes are not files).
+
+const wfaultLimit = 64 << 10
+
+func stageWFault(sink *hx.Sink) {
+	self, err := os.Executable()
+	if err != nil {
+		fmt.Fprintln(os.Stderr, "dav: wfault:", err)
+		os.Exit(2)
+	}
+	cmd := exec.Command(self, "-stage", "wfault-child")
+	cmd.Env = append(os.Environ(), "VERIF_SCRATCH="+scratch)
+	cmd.Stderr = os.Stderr
+	out, err := cmd.StdoutPipe()
+	if err != nil || cmd.Start() != nil {
+		fmt.Fprintln(os.Stderr, "dav: wfault: cannot start the child")
+		os.Exit(2)
+	}
+	sc := bufio.NewScanner(out)
+	sc.Buffer(make([]byte, 1<<20), 64<<20)
+	for sc.Scan() {
+		if l := sc.Text(); strings.HasPrefix(l, "(") {
+			sink.Put(l)
+		}
+	}
+	if err := cmd.Wait(); err != nil {
+		fmt.Fprintln(os.Stderr, "dav: wfault child:", err)
+		os.Exit(2)
+	}
+}
+
+func stageWFaultChild() {
+	signal.Ignore(syscall.SIGXFSZ)
+	big := strings.Repeat("B", 3*wfaultLimit)
+	tree := davx.Dir("root", davx.Dir(
+		"keep", davx.File("keep me"),
+		"old", davx.File("old content that must survive"),
+		"big", davx.File(big),
+		"col", davx.Dir("m1", davx.File("small"), "m2", davx.File(big), "m3", davx.File("after")),
+		"dstcol", davx.Dir("x", davx.File("existing member"))))
+	sb := davx.NewSandbox(workerDir(400), []string{"root"})
+	if err := sb.Reset(tree); err != nil { // built before the limit is lowered
+		fmt.Fprintln(os.Stderr, "dav: reset:", err)
+		os.Exit(2)
+	}
+	lim := syscall.Rlimit{Cur: wfaultLimit, Max: wfaultLimit}
+	if err := syscall.Setrlimit(syscall.RLIMIT_FSIZE, &lim); err != nil {
+		fmt.Fprintln(os.Stderr, "dav: setrlimit:", err)
+		os.Exit(2)
+	}
+	w := bufio.NewWriter(os.Stdout)
+	defer w.Flush()
+	before := davx.Snapshot(sb.Dir)
+	var reqs []davx.Req
+	for _, p := range []string{"/new", "/old", "/col/new"} {
+		for _, n := range []int{wfaultLimit - 1, wfaultLimit, wfaultLimit + 1, 2 * wfaultLimit} {
+			r := davx.NewReq("PUT", p)
+			r.Body = strings.Repeat("Z", n)
+			reqs = append(reqs, r)
+		}
+	}
+	for _, m := range []string{"COPY", "MOVE"} {
+		for _, src := range []string{"/big", "/col", "/keep"} {
+			for _, dst := range []string{"/copy", "/old", "/dstcol", "/col/copy"} {
+				r := davx.NewReq(m, src)
+				r.Dest = dst
+				reqs = append(reqs, r)
+			}
+		}
+	}
+	for _, r := range reqs {
+		d, o, after := sb.Do(r, before)
+		d.WriteLimit = wfaultLimit
+		fmt.Fprintln(w, davx.Line(sb, before, r, d, o, after))
+		if !after.SameShape(before) {
+			// rebuilding needs the big files, which this process can no longer write: put back
+			// what can be put back and stop using the tree when that is not enough
+			restoreSmall(sb, tree, before)
+			before = davx.Snapshot(sb.Dir)
+		}
+	}
+	os.RemoveAll(filepath.Dir(sb.Dir))
+}
+
+// restoreSmall removes what a request added and rewrites small files it changed (big files
+// cannot be rewritten under the limit; a request that destroyed one ends their use as sources).
+func restoreSmall(sb *davx.Sandbox, tree, before *davx.Node) {
+	var fix func(dir string, want, have *davx.Node)
+	fix = func(dir string, want, have *davx.Node) {
+		if have != nil && have.IsDir {
+			for _, k := range have.Names {
+				var wk *davx.Node
+				if want != nil && want.IsDir {
+					wk = want.Kids[k]
+				}
+				if wk == nil || wk.IsDir != have.Kids[k].IsDir {
+					os.RemoveAll(filepath.Join(dir, k))
+				}
+			}
+		}
+		if want == nil || !want.IsDir {
+			return
+		}
+		for _, k := range want.Names {
+			p := filepath.Join(dir, k)
+			wk := want.Kids[k]
+			cur := davx.Snapshot(p)
+			switch {
+			case wk.IsDir:
+				if cur == nil {
+					os.Mkdir(p, 0755)
+				}
+				fix(p, wk, davx.Snapshot(p))
+			case cur == nil || cur.Content != wk.Content:
+				if len(wk.Content) < wfaultLimit {
+					os.WriteFile(p, []byte(wk.Content), 0644)
+				}
+			}
+		}
+	}
+	fix(sb.Dir, tree, davx.Snapshot(sb.Dir))
+}
+
 func main() {
 	out := flag.String("out", "", "output file")
 	replay := flag.String("replay", "", "file of case lines to re-run")
-	stage := flag.String("stage", "universe", "universe|history|paths|traversal|cond|putfault|putsteps|headers|exotic|types|rootspell|raceput")
+	stage := flag.String("stage", "universe", "universe|history|paths|traversal|cond|putfault|putsteps|headers|exotic|types|rootspell|raceput|wfault")
 	flag.Parse()
+	if *stage == "wfault-child" {
+		scratch = filepath.Join(os.Getenv("VERIF_SCRATCH"), "wfault-child")
+		stageWFaultChild()
+		return
+	}
 	scratch = os.Getenv("VERIF_SCRATCH")
 	if scratch == "" {
 		scratch = filepath.Join("/dev/shm", fmt.Sprintf("verif.%d", os.Getpid()))
@@ -1293,6 +1427,8 @@ func main() {
 		stageTypes(sink)
 	case "rootspell":
 		stageRootSpell(sink)
+	case "wfault":
+		stageWFault(sink)
 	case "raceput":
 		stageRacePut(sink)
 	default:
